@@ -151,7 +151,7 @@ def h_emit(who, kind):
     return ['emit', 'protected']
 
 
-def h_tamper(k, integ_id, pos_kind):
+def h_tamper(k, integ_id, pos_kind, n_clear=0):
     """a datagram whose checksum field is arbitrary: whenever the real parser accepts it, the whole truncated MAC of
     header..ciphertext equals the whole checksum field (so any change of any covered byte needs a MAC collision)"""
     from symx import core
@@ -166,8 +166,13 @@ def h_tamper(k, integ_id, pos_kind):
     crypto = c.Crypto(cipher, sk_e, integ, sk_a, prf, b'p' * 32)
     hdr = eng.sym_bytes('hdr', 16)
     body = eng.sym_bytes('iv_ct_icv', 16 + 16 * k + hs)
-    total = 28 + 4 + len(body)
-    d = hdr + bytes([46, 0x20, 37, 0x08]) + eng.sym_bytes('mid', 4) + total.to_bytes(4, 'big') + bytes([0, 0]) + \
+    # n_clear cleartext Vendor ID payloads in front of the Encrypted payload (RFC 7296 3.14 only requires SK to be the LAST payload)
+    clear = b''
+    for i in range(n_clear):
+        clear = clear + bytes([43 if i + 1 < n_clear else 46, 0, 0, 8]) + eng.sym_bytes(f'vendor{i}', 4)
+    total = 28 + len(clear) + 4 + len(body)
+    sk_off = 28 + len(clear)
+    d = hdr + bytes([43 if n_clear else 46, 0x20, 37, 0x08]) + eng.sym_bytes('mid', 4) + total.to_bytes(4, 'big') + clear + bytes([0, 0]) + \
         (4 + len(body)).to_bytes(2, 'big') + body
     real_dec = cipher.decrypt
 
@@ -177,9 +182,11 @@ def h_tamper(k, integ_id, pos_kind):
         return out
     cipher.decrypt = dec
     try:
-        m.Message.parse(d, crypto=crypto)
+        parsed = m.Message.parse(d, crypto=crypto)
     except m.IkeSaError as ex:
         return ['rejected', type(ex).__name__]
+    if not parsed.is_protected or len(parsed.payloads) != n_clear:
+        return {'class': ['accepted'], 'violation': 'a datagram ending in an Encrypted payload was accepted without being treated as protected'}
     macs = [x for x in eng.uf_log if x[0] == 'hmac']
     if len(macs) != 1:
         return {'class': ['accepted'], 'violation': f'accepted after {len(macs)} MAC computations'}
@@ -188,7 +195,7 @@ def h_tamper(k, integ_id, pos_kind):
                    'accepted although the MAC was not computed over header..end of ciphertext with the integrity key')
     ok &= eng.prove(tag[:hs] == d[total - hs:], 'accepted although the checksum field differs from the truncated MAC')
     decs = [x for x in eng.uf_log if x[0] == 'aes_cbc_dec']
-    ok &= eng.prove(len(decs) == 1 and decs[0][1][0] == sk_e and decs[0][1][1] == d[32:48] and decs[0][1][2] == d[48:total - hs],
+    ok &= eng.prove(len(decs) == 1 and decs[0][1][0] == sk_e and decs[0][1][1] == d[sk_off + 4:sk_off + 20] and decs[0][1][2] == d[sk_off + 20:total - hs],
                     'decryption input is not (sk_e, IV, ciphertext)')
     return ['accepted', bool(ok)]
 
@@ -205,6 +212,9 @@ def build_instances(tier):
         for integ_id in (2, 12, 14):
             inst.append(Instance(f'accept-implies-MAC blocks={k} integ={integ_id}', h_tamper, (k, integ_id, 0),
                                  must_reach=[('accepted', lambda o: o[0] == 'accepted'), ('rejected', lambda o: o[0] == 'rejected')]))
+            for nc in (1, 2):
+                inst.append(Instance(f'accept-implies-MAC blocks={k} integ={integ_id} clear={nc}', h_tamper, (k, integ_id, 0, nc),
+                                     must_reach=[('accepted', lambda o: o[0] == 'accepted'), ('rejected', lambda o: o[0] == 'rejected')]))
     for who in ('A', 'B'):
         for kind in ('request', 'response'):
             inst.append(Instance(f'emitted {kind} of {who} with any exchange type', h_emit, (who, kind),
@@ -237,9 +247,11 @@ def replay_file(path):
     v = json.load(open(path))
     name, inp = v['instance'], v['inputs']
     T = m.Transform
+    n_clear = 0
     if not name.startswith('generate'):
         print('accept-implies-MAC counterexamples involve the uninterpreted MAC; replayed as the generate+parse differential')
-        k, integ_id, keylen = 5, int(name.split('integ=')[1]), 256
+        k, integ_id, keylen = 5, int(name.split('integ=')[1].split()[0]), 256
+        n_clear = int(name.split('clear=')[1]) if 'clear=' in name else 0
         inp = {'sk_e': '11' * 32, 'sk_a': '22' * INTEG[integ_id][2], 'iv': '33' * 16, 'spi_i': '44' * 8, 'spi_r': '55' * 8,
                'msg_id': 7, 'vendor': '66' * 5}
     else:
@@ -252,8 +264,8 @@ def replay_file(path):
     crypto = c.Crypto(cipher, sk_e, integ, sk_a, prf, b'p' * 32)
     body = bytes.fromhex(inp.get('vendor', ''))
     pl = [m.PayloadVENDOR(body)] if k else []
-    msg = m.Message(bytes.fromhex(inp['spi_i']), bytes.fromhex(inp['spi_r']), 2, 0, 37, False, False, True, inp['msg_id'], [], pl,
-                    crypto=crypto, iv=iv)
+    msg = m.Message(bytes.fromhex(inp['spi_i']), bytes.fromhex(inp['spi_r']), 2, 0, 37, False, False, True, inp['msg_id'],
+                    [m.PayloadVENDOR(b'clr%d' % i) for i in range(n_clear)], pl, crypto=crypto, iv=iv)
     data = bytes(msg.to_bytes())
     bad = []
     clear = (b'\0\0' + (4 + k).to_bytes(2, 'big') + body) if k else b''
@@ -264,7 +276,7 @@ def replay_file(path):
     exp = bytearray(bytes.fromhex(inp['spi_i']) + bytes.fromhex(inp['spi_r']) + bytes([46, 0x20, 37, 0x08]) + inp['msg_id'].to_bytes(4, 'big')
                     + (28 + 4 + 16 + len(ct) + hs).to_bytes(4, 'big') + bytes([43 if k else 0, 0]) + (4 + 16 + len(ct) + hs).to_bytes(2, 'big') + iv + ct)
     exp += hmac.new(sk_a, bytes(exp), getattr(hashlib, hname)).digest()[:hs]
-    if data != bytes(exp):
+    if data != bytes(exp) and not n_clear:
         bad.append('to_bytes differs from the independent RFC 7296 3.14 encoder')
     try:
         back = m.Message.parse(data, crypto=crypto)
